@@ -284,3 +284,72 @@ def make_churn_script(rng, name, table=False, length=None):
         if step % 50 == 49:
             lines.append(("tfind {0} id {0}" if table else "get {0}").format(nkeys + 1))      # absent key in a tombstone-laden table
     return f"=== {name} plan={plan} live={live}\n" + "\n".join(lines) + "\n"
+
+
+def make_run_script(rng, name, kind=None):
+    """Collision runs: n keys sharing a probe start (n from below one group to several groups),
+    removals INSIDE the run (tombstones in groups without an EMPTY byte), then every lookup /
+    insert / entry / remove API on keys stored BEYOND the tombstone and on absent keys; optionally
+    an in-place rehash afterwards (remove most, insert again) and the same probes again."""
+    kind = kind or rng.choice(["map-drop", "map-plain"])
+    plan = rng.choice(["zero", "max", "lowpos", "twotags", "wrap", "sametag"])
+    # 7, 14, 28, 56 fill a table exactly (growth_left = 0): removals then leave tombstones only, and
+    # the next insertion of a new key rehashes in place when at most half the capacity is live
+    n = rng.choice([9, 14, 14, 15, 16, 17, 18, 24, 28, 28, 28, 31, 33, 40, 56, 56, 57])
+    g = Gen(rng, n + 6, plan, kind)
+    g.resync = False
+    g.many = False
+    g.forget = False
+    g.header()
+    for k in range(n):
+        g.op_insert(k)
+    victims = rng.sample(range(n), rng.choice([1, 1, 2, 3, max(1, n // 3), n // 2 + 1, n // 2 + 1, max(1, n - 2), max(1, n - 5)]))
+    for k in victims:
+        g.op_remove(k)
+    def probes():
+        keys = list(range(n + 4))
+        rng.shuffle(keys)
+        for k in keys[: rng.choice([6, 12, n + 4])]:
+            c = rng.choice(["insert", "insert", "get", "getkv", "contains", "getmut", "tryinsert", "entry_or_insert", "entry_insert",
+                            "entry_and_modify", "entry_drop", "remove_reinsert", "iter", "len"])
+            if c == "insert":
+                g.op_insert(k)
+            elif c in ("get", "getkv", "contains"):
+                g.emit(f"{c} {k}")
+            elif c == "getmut":
+                v = g.val(); g.emit(f"getmut {k} {v}")
+                if k in g.contents: g.contents[k] = (g.contents[k][0], v)
+            elif c in ("tryinsert", "entry_or_insert"):
+                st, v = g.st(), g.val(); g.emit(f"{c} {k} {st} {v}")
+                if k not in g.contents: g.contents[k] = (st, v)
+            elif c == "entry_insert":
+                st, v = g.st(), g.val(); g.emit(f"{c} {k} {st} {v}")
+                g.contents[k] = (g.contents[k][0] if k in g.contents else st, v)
+            elif c == "entry_and_modify":
+                st, add, v = g.st(), rng.randrange(5), g.val(); g.emit(f"{c} {k} {st} {add} {v}")
+                if k in g.contents: g.contents[k] = (g.contents[k][0], (g.contents[k][1] + add) & M64)
+                else: g.contents[k] = (st, v)
+            elif c == "entry_drop":
+                g.emit(f"{c} {k} {g.st()}")
+            elif c == "remove_reinsert":
+                g.op_remove(k); g.op_insert(k)
+            else:
+                g.emit(c)
+    probes()
+    if rng.random() < 0.6:
+        # tombstone-saturate, then force an in-place rehash (items + 1 <= capacity / 2)
+        live = list(g.contents)
+        rng.shuffle(live)
+        for k in live[: max(0, len(live) - rng.choice([1, 2, 4, 7]))]:
+            g.op_remove(k)
+        for _ in range(rng.choice([4, 10, 30])):
+            k = g.absent()
+            if k is None:
+                k = g.present()
+                g.op_remove(k)
+            g.op_insert(k)
+            if rng.random() < 0.3 and g.contents:
+                g.op_remove(g.present())
+        probes()
+    g.emit("iter")
+    return f"=== {name} plan={plan} nkeys={n + 6}\n" + "\n".join(g.lines) + "\n"
